@@ -47,7 +47,7 @@ def run(ctx):
     for cfg in configs(ctx.tier):
         facts = ctx.facts(cfg)
         run_config(ctx, facts)
-    if ctx.tier == "thorough":
+    if True:
         from .. import witness
         witness.run_set(ctx, "C03", ["w6_forge_entity_new", "w6_forge_entity_tuple", "w6_forge_generation"])
 
